@@ -1173,6 +1173,11 @@ func ruleDupComplete(c *Ctx) []Obligation {
 					okc, how = true, "fresh slice"
 				}
 			case *ssa.Call:
+				if cal := v.Call.StaticCallee(); cal != nil && c.isRepoFn(cal) {
+					if idx := clipsParam(cal); idx >= 0 {
+						okc, how = true, "clipped by "+c.FnName(cal)+" (returns its argument as a three-index slice with max == len)"
+					}
+				}
 				if b, isB := v.Call.Value.(*ssa.Builtin); isB && b.Name() == "append" && len(v.Call.Args) > 0 {
 					if isNilConst(v.Call.Args[0]) {
 						okc, how = true, "copied by append(nil, …)"
@@ -1271,4 +1276,36 @@ func isLoopHeader(b *ssa.BasicBlock) bool {
 		}
 	}
 	return false
+}
+
+// clipsParam: fn returns, on every path, one of its slice parameters re-sliced as p[:len(p):len(p)]
+// (or a fresh copy of it). Returns the parameter index, -1 otherwise.
+func clipsParam(fn *ssa.Function) int {
+	if fn.Blocks == nil {
+		return -1
+	}
+	idx := -1
+	for _, b := range fn.Blocks {
+		r, isR := b.Instrs[len(b.Instrs)-1].(*ssa.Return)
+		if !isR {
+			continue
+		}
+		if len(r.Results) != 1 {
+			return -1
+		}
+		sl, isS := r.Results[0].(*ssa.Slice)
+		if !isS || sl.Max == nil || sl.High == nil || !sameExpr(sl.Max, sl.High) {
+			return -1
+		}
+		p, isP := sl.X.(*ssa.Parameter)
+		if !isP {
+			return -1
+		}
+		i := paramIndex(fn, p)
+		if idx >= 0 && idx != i {
+			return -1
+		}
+		idx = i
+	}
+	return idx
 }
